@@ -22,6 +22,8 @@ import (
 	"math"
 	"net/http"
 	"net/http/httptest"
+	"os"
+	"regexp"
 	"sort"
 	"strconv"
 	"strings"
@@ -131,7 +133,7 @@ func genRegistry(r *emit.Rng, idx int) regSpec {
 	for i := 0; i < nf; i++ {
 		var f famSpec
 		root := nameRoots[r.Intn(len(nameRoots))]
-		if r.Chance(1, 12) {
+		if r.Chance(1, 30) {
 			root = utf8Roots[r.Intn(len(utf8Roots))]
 			rs.utf8 = true
 		}
@@ -142,7 +144,7 @@ func genRegistry(r *emit.Rng, idx int) regSpec {
 		used := map[string]bool{}
 		for j := 0; j < nl; j++ {
 			ln := labelNamePool[r.Intn(len(labelNamePool))]
-			if r.Chance(1, 25) {
+			if r.Chance(1, 60) {
 				ln = utf8LabelNames[r.Intn(len(utf8LabelNames))]
 				rs.utf8 = true
 			}
@@ -1070,9 +1072,9 @@ func newScrapeServer() *scrapeServer {
 
 type world struct {
 	skipped []string
-	r      *emit.Rng
-	srv    *scrapeServer
-	direct []map[string]interface{}
+	r       *emit.Rng
+	srv     *scrapeServer
+	direct  []map[string]interface{}
 }
 
 type regCtx struct {
@@ -1807,5 +1809,35 @@ func runC17(c *cli.Ctx) error {
 	if err := w.formatStream(c.Out, regs); err != nil {
 		return err
 	}
-	return w.normalizeStream(c.Out, c.Scale, regs)
+	if err := w.normalizeStream(c.Out, c.Scale, regs); err != nil {
+		return err
+	}
+	return w.knownHelpLeadingBlank(c.Out)
+}
+
+// knownHelpLeadingBlank: a help string that starts with a blank or tab is not reproduced by the text
+// parser (it skips leading blanks), so comparing a gatherer with its own exposition reports a diff.
+// The ordinary streams never generate such a help.  The stream is only produced once the finding is
+// listed in known_findings.txt (key=help-leading-blank), because an unlisted known-stream is a violation.
+func (w *world) knownHelpLeadingBlank(dir string) error {
+	home := os.Getenv("VERIF_HOME")
+	if home == "" {
+		home = "/verif"
+	}
+	b, err := os.ReadFile(home + "/known_findings.txt")
+	if err != nil || !regexp.MustCompile(`(?m)^known:\s+property=C17\s+key=help-leading-blank\b`).Match(b) {
+		return nil
+	}
+	out := emit.NewWriter(dir, "C17", "known-help-leading-blank")
+	for i, help := range []string{" leading blank", "\tleading tab", "  two blanks", " "} {
+		rs := regSpec{fams: []famSpec{{name: fmt.Sprintf("known_help_%d", i), help: help, typ: tGauge, children: []childSpec{{val: float64(i)}}}}}
+		c, err := newRegCtx(rs, w.r)
+		if err != nil {
+			return err
+		}
+		for helper := 0; helper < 3; helper++ {
+			w.compareCase(out, c, helper, perturb{pIdentity, c.names[0], c.text0}, 0, map[int]string{0: projAll(c.norm0, nil)})
+		}
+	}
+	return out.Flush()
 }
